@@ -5,6 +5,7 @@ import (
 	"errors"
 	"fmt"
 	"strings"
+	"sync"
 	"time"
 
 	"github.com/ClickHouse/ch-go"
@@ -41,8 +42,11 @@ func c10(r *core.Run) {
 		cliBytes := pilot.WrittenAtReturn - pilot.HandshakeW
 		pilot.Sim.Client.Close()
 		var plans []*fault
-		for _, g := range gates {
+		for gi, g := range gates {
 			plans = append(plans, &fault{Kind: "cancel", Gate: g})
+			if gi%2 == 0 || !r.Quick() {
+				plans = append(plans, &fault{Kind: "deadline", Gate: g}) // the caller's deadline passes at this gate
+			}
 		}
 		plans = append(plans, &fault{Kind: "deadline-passed"})
 		// mid-packet stalls: server silent after k bytes, then cancel
@@ -81,7 +85,13 @@ func c10(r *core.Run) {
 func c10One(r *core.Run, sc scn, seed int64, f *fault) {
 	var cancelAt time.Time
 	mk := func() (context.Context, context.CancelFunc) {
-		ctx, cancel := context.WithCancel(context.Background())
+		var ctx context.Context
+		var cancel context.CancelFunc
+		if f.Kind == "deadline" {
+			ctx, cancel = newManualDeadlineCtx()
+		} else {
+			ctx, cancel = context.WithCancel(context.Background())
+		}
 		return ctx, func() {
 			if cancelAt.IsZero() {
 				cancelAt = time.Now()
@@ -265,4 +275,35 @@ func c10Handshake(r *core.Run, ci int64, k int) {
 		fail("goroutine-leak:handshake", fmt.Sprintf("%d library goroutines outlive Connect:\n%s", len(leaked), clipS(leaked[0])))
 	}
 	_ = errors.Is
+}
+
+// manualDeadlineCtx is a context with a (far) deadline whose expiry is triggered by the test:
+// after trigger() its Err() is context.DeadlineExceeded, as if the caller's deadline had passed.
+type manualDeadlineCtx struct {
+	done chan struct{}
+	once sync.Once
+	dl   time.Time
+	mu   sync.Mutex
+	err  error
+}
+
+func newManualDeadlineCtx() (context.Context, context.CancelFunc) {
+	c := &manualDeadlineCtx{done: make(chan struct{}), dl: time.Now().Add(time.Hour)}
+	return c, func() {
+		c.once.Do(func() {
+			c.mu.Lock()
+			c.err = context.DeadlineExceeded
+			c.mu.Unlock()
+			close(c.done)
+		})
+	}
+}
+
+func (c *manualDeadlineCtx) Deadline() (time.Time, bool) { return c.dl, true }
+func (c *manualDeadlineCtx) Done() <-chan struct{}       { return c.done }
+func (c *manualDeadlineCtx) Value(any) any               { return nil }
+func (c *manualDeadlineCtx) Err() error {
+	c.mu.Lock()
+	defer c.mu.Unlock()
+	return c.err
 }
